@@ -131,19 +131,28 @@ def split_items(text):
     return prefix, items
 
 
-def permute(text, rnd):
-    """the same definitions in another order (None if the text cannot be split or the shuffle
-    gives the same order back)"""
+def apply_order(text, order):
+    prefix, items = split_items(text)
+    items = [it if it.endswith("\n") else it + "\n" for it in items]
+    return prefix + "".join(items[k] for k in order)
+
+
+def permute_order(text, rnd):
+    """-> (order, text with the definitions in that order), or None if the text cannot be split
+    or the shuffle gives the same order back"""
     sp = split_items(text)
     if sp is None:
         return None
-    prefix, items = sp
-    items = [it if it.endswith("\n") else it + "\n" for it in items]
-    order = list(range(len(items)))
+    order = list(range(len(sp[1])))
     for _ in range(4):
         rnd.shuffle(order)
         if order != sorted(order):
             break
     if order == sorted(order):
         return None
-    return prefix + "".join(items[k] for k in order)
+    return order, apply_order(text, order)
+
+
+def permute(text, rnd):
+    r = permute_order(text, rnd)
+    return None if r is None else r[1]
